@@ -976,6 +976,9 @@ def _check_chain(c, mod, f, ex, ps, heads, ks, kind, direction):
                 su = [e for e in ev if e[0] == "SETUP"]
                 ab = [e for e in ev if e[0] == "ABSORB"]
                 want_absorbs = [(0x30, P640, A["ad"], A["adlen"])] + ([(0x50, KR[klen], A["m"], A["mlen"])] if kind == "siv" else [])
+                # (premise of 'a modified nonce is rejected', not relational: the set-up of the authentication pass is handed the caller's nonce)
+                c.ob(len(su) >= 1 and su[0][7] == repr(Lf.s(A["npub"])), "NONCEARG", "setup-nonce-argument", "the set-up of the authentication pass is given the caller's nonce (npub)",
+                     "the set-up of the authentication pass is given %s, not the caller's nonce: nonce bytes that do not reach the state can be modified freely" % (su[0][7] if su else "nothing"))
                 c.ob(len(su) >= 1 and su[0][2] == first_setup_dom and su[0][7] == repr(Lf.s(A["npub"])) and su[0][6] == names["setup"], "PREFIX", "setup-call",
                      "setup_%s(state, npub, 0x%02X)" % (ks, first_setup_dom), "first setup call is %s" % ([(e[6], hex(e[2] or 0), e[7]) for e in su[:1]],))
                 c.ob(len(su) >= 1 and mode.words_eq([list(w) for w in su[0][4]], want_k), "PREFIX", "setup-key", "setup sees the unpacked key", "key words are not in place when setup is called")
